@@ -311,6 +311,10 @@ type rzSess struct {
 	conn    *streamableServerConn
 	streams map[string]string // real stream id -> canonical t<n>
 	nstream int
+	// direct use of the transport (no StreamableHTTPHandler): the application made the StreamableServerTransport itself,
+	// connected it with Server.Connect and hands every HTTP request of the session to transport.ServeHTTP
+	direct *StreamableServerTransport
+	ss     *ServerSession
 }
 
 type rzHarness struct {
@@ -712,6 +716,10 @@ func (h *rzHarness) serve(r rzReq) *rzExch {
 	x := &rzExch{h: h, n: len(h.exchs) + 1, sess: sessName, hdr: http.Header{}, budget: r.budget, cancel: cancel}
 	h.exchs = append(h.exchs, x)
 	h.mu.Unlock()
+	var direct *StreamableServerTransport
+	if s := h.sessByName(r.sess); s != nil {
+		direct = s.direct
+	}
 	go func() {
 		defer func() {
 			if rec := recover(); rec != nil {
@@ -723,6 +731,10 @@ func (h *rzHarness) serve(r rzReq) *rzExch {
 			x.ended = true
 			h.mu.Unlock()
 		}()
+		if direct != nil {
+			direct.ServeHTTP(x, req)
+			return
+		}
 		h.handler.ServeHTTP(x, req)
 	}()
 	return x
@@ -1046,11 +1058,37 @@ func (h *rzHarness) apply(toks []string) (obs string) {
 		}
 	}
 	switch toks[0] {
-	case "init": // init <sess> id=<n> v=<a|b|c> b=<budget>
+	case "init": // init <sess> id=<n> v=<a|b|c> b=<budget> [dt=1]
 		s := &rzSess{name: toks[1], streams: map[string]string{}}
 		h.mu.Lock()
 		h.sessions = append(h.sessions, s)
 		h.mu.Unlock()
+		if kv["dt"] == "1" {
+			// dt=1: a session served by a StreamableServerTransport the application created and connected itself
+			if h.stateless {
+				return "bad-op"
+			}
+			t := &StreamableServerTransport{SessionID: "verif-direct-" + toks[1]}
+			if h.store != nil {
+				t.EventStore = h.store
+			}
+			t.jsonResponse = h.jsonMode
+			h.mu.Lock()
+			s.realID, s.direct = t.SessionID, t
+			h.byReal[t.SessionID] = s
+			h.mu.Unlock()
+			ss, err := h.server.Connect(context.Background(), t, nil)
+			if err != nil {
+				return "connect-failed"
+			}
+			h.mu.Lock()
+			s.ss, s.conn = ss, t.connection
+			if h.store != nil {
+				h.sawStream(t.SessionID, "")
+			}
+			h.mu.Unlock()
+			synctest.Wait()
+		}
 		id, _ := strconv.Atoi(kv["id"])
 		h.serve(rzReq{method: "POST", sess: toks[1], body: fmt.Sprintf(rzInitBody, id, rzVersion(kv["v"])), budget: rzBudget(kv["b"])})
 		synctest.Wait()
@@ -1661,6 +1699,12 @@ func (h *rzHarness) finish() {
 	synctest.Wait()
 	h.handler.closeAll()
 	synctest.Wait()
+	for _, s := range h.sessions {
+		if s.ss != nil {
+			go s.ss.Close()
+		}
+	}
+	synctest.Wait()
 }
 
 // ---------------------------------------------------------------------------------------------
@@ -1735,6 +1779,7 @@ type rzGSess struct {
 	listen   bool
 	postX    int  // stateless: the POST exchange
 	sub      bool // resources/subscribe was answered: the session is entitled to resources/updated
+	direct   bool // served by transport.ServeHTTP directly (no handler)
 }
 
 type rzGen struct {
@@ -1769,6 +1814,7 @@ type rzGen struct {
 	pressures int  // resumes with another session's appends (purges) in the middle of the replay
 	maxb      bool // a standing store limit is in force
 	cancels   int  // requests the client cancelled while their handler was running
+	directs   int  // sessions served by transport.ServeHTTP directly
 }
 
 type rzGAgain struct {
@@ -1925,7 +1971,15 @@ func (g *rzGen) newSession() {
 	s := &rzGSess{name: name, streams: map[string]*rzGStream{}}
 	g.sess = append(g.sess, s)
 	v := []string{"a", "b", "c", "c"}[g.pick(4)]
-	g.do(fmt.Sprintf("init %s id=0 v=%s%s", name, v, g.budget()))
+	b := g.budget()
+	if g.prng != nil && g.prng.Intn(100) < 15 {
+		// the application uses the transport directly: no handler in front of it
+		s.direct = true
+		g.directs++
+		g.do(fmt.Sprintf("init %s id=0 v=%s%s dt=1", name, v, b), "init-direct-transport")
+	} else {
+		g.do(fmt.Sprintf("init %s id=0 v=%s%s", name, v, b))
+	}
 	if g.chance(50) {
 		g.do(fmt.Sprintf("note %s hv=%s", name, g.version()))
 	}
@@ -2584,6 +2638,10 @@ func (g *rzGen) stepStateful() {
 	case r < 97:
 		// DELETE waits for handlers and pending calls: only when there are none
 		if len(parked) == 0 && len(s.calls) == 0 {
+			if s.direct {
+				g.do("delete "+s.name, "delete-direct-405") // the transport serves GET and POST only; the session lives on
+				return
+			}
 			g.do("delete " + s.name)
 			s.gone = true
 			return
@@ -2741,6 +2799,9 @@ func rzGenCase(t *testing.T, out *verifOut, c int, prop string) (cuts, resumes, 
 		}
 		if g.cancels > 0 {
 			tags = append(tags, "case-with-client-cancel")
+		}
+		if g.directs > 0 {
+			tags = append(tags, "case-with-direct-transport")
 		}
 		out.line(cs, "endcase", "ok", append([]string{"endcase"}, tags...)...)
 		cuts, resumes, races = g.cuts, g.resumes, g.races
